@@ -5,6 +5,7 @@ CONSTANTS
   MODE = "rule"
   Cells <- Cells_q
   NR = 4
+  NRC = 8
   PairSel = "upper"
   TieRules = {"fwd"}
   BugEnds = {FALSE}
